@@ -45,11 +45,16 @@ package sqlgen
 // operation must have had a successful limit check on the filter / column values of the very query it sends.
 //@ func DB.BaseQuery
 //@   requires db != nil
+//@   keeps BaseSelectQuery            // the limit check, the transaction lookup and the SQL builder do not rewrite the query they are given
 //@   ghost checked bool
 //@   entry ghost checked = false
 //@   call DB.checkFilterAgainstLimits assert arg3 == query.Filter && arg4 == query.Table
 //@   call DB.checkFilterAgainstLimits ghost checked = ret0 == nil
-//@   call Func.Invoke assert checked
+// C10: only a query without options (no custom WHERE, order, limit) and outside a transaction is handed to the batch
+// function - the combined SELECT can express nothing but the filters - and it is handed over as it is
+//@   ghost intx bool
+//@   call DB.HasTx ghost intx = ret0
+//@   call Func.Invoke assert checked && query.Options == nil && !intx && arg2 == any(query)
 //@   call DB.runExplainQuery assert checked
 //@   call QueryContext assert checked
 
@@ -154,14 +159,18 @@ package sqlgen
 
 // A filter on a nil value (nil interface or nil pointer) never goes into an IN list or behind "=?": NULL does not compare
 // equal in SQL, so it is written as IS NULL and contributes no argument (defect s22).
+// Since fix s30 the filters handed to makeBatchQuery are driver values (a nil pointer has become a nil interface there), so
+// the clause is stated on the value that is bound, not on the helper that recognises it: what reaches the argument list is
+// never nil. (A seeded change that replaces the helper by `== nil` no longer alters behaviour and raises no alarm.)
 //@ func makeBatchQuery
-//@   ghost lastNil bool
-//@   call isNilValue ghost lastNil = ret0
-//@   call append#3 assert !lastNil
-//@   call append#4 assert !lastNil
+//@   call append#3 assert tuple[0] != nil
+//@   call append#4 assert tuple[j] != nil
 
-//@ func isNilValue
+// (isNilValue goes through package reflect; that it says true for the nil interface is a trusted fact, exercised by the
+// batching harness with nil and nil-pointer filters)
+//@ trusted func isNilValue
 //@   assigns nothing
+//@   ensures v == nil ==> result
 
 // ---- C12 (what is sent stays inside the checked filter): the checked filter is AND-ed with the WHOLE custom clause - both
 // sides parenthesised, so an OR at the top of SelectOptions.Where cannot escape the filter - and the filter's values come
